@@ -3,7 +3,7 @@ runtime.final) executed on a symbolic termination event drawn from a model of wh
 The model rows are validated against the real interpreter by c18.py (part B)."""
 from .catalogue import Entry
 
-ROUTES = ("falloff", "sys_exit", "raise_systemexit", "exception", "keyboardinterrupt")
+ROUTES = ("falloff", "sys_exit", "sys_exit_after_caught_exit0", "sys_exit_after_caught_exit3", "raise_systemexit", "exception", "keyboardinterrupt")
 KINDS = ("none", "int", "true", "false", "str_empty", "str_x", "float", "list")
 
 
@@ -68,6 +68,16 @@ def run_event(k, route, kind, autoprove, has_ps):
                 ov.exit(c)                 # sys.exit is bound to the interposer
             except SystemExit:
                 pass
+        elif route.startswith("sys_exit_after_caught_exit"):
+            # an earlier sys.exit(k) was intercepted by the script (try/except SystemExit); the run then ends with sys.exit(c)
+            try:
+                ov.exit(int(route[-1]))
+            except SystemExit:
+                pass
+            try:
+                ov.exit(c)
+            except SystemExit:
+                pass
         elif route == "raise_systemexit":
             pass                           # SystemExit raised directly: neither sys.exit nor sys.excepthook is involved
         elif route == "exception":
@@ -94,7 +104,8 @@ def run_event(k, route, kind, autoprove, has_ps):
 def build(n=4, tier="quick"):
     ents = []
     for route in ROUTES:
-        kinds = KINDS if route in ("sys_exit", "raise_systemexit") else ("none",)
+        kinds = KINDS if route in ("sys_exit", "raise_systemexit") else (
+            ("none", "int", "str_x") if route.startswith("sys_exit_after") else ("none",))
         for kind in kinds:
             for ap in (True, False):
                 for ps in (True, False):
